@@ -211,6 +211,8 @@ def package_jobs():
     # a fragment on a parent interface spread directly in a field whose type is a child interface (kept apart from operations that use
     # the same fragments as base classes: that mixture is the listed defect C08-fragment-excluded)
     jobs.append((corpus.S_ABS, "query P1 { named { ...NA name } }\nquery P2 { named { id ...NB } }\n" + corpus.FRAG_POOL["NA"] + "\n" + corpus.FRAG_POOL["NB"], None, None))
+    # two operations of one run sharing a three-deep chain of fragments (state carried from one operation to the next shows here)
+    jobs.append((corpus.S_ABS, "query D1 { me { ...UC } }\nquery D2 { user { ...UC id } }\nquery D3 { users { ...UB } }\n" + "\n".join(corpus.FRAG_POOL[f] for f in ("UC", "UB", "UA")), None, None))
     for q in MIXIN_QUERIES:
         jobs.append((corpus.S_ABS, q, {"mixins.py": MIXIN_PY}, {"files_to_include": ["mixins.py"]}))
     jobs.append((corpus.S_ABS, "\n".join(MIXIN_QUERIES), {"mixins.py": MIXIN_PY}, {"files_to_include": ["mixins.py"]}))
